@@ -1,7 +1,7 @@
 (* C20 -- Wilson models respect their own maxima, bounds and fixed points.
    Statements only; proofs in Lemmas/LC20.v.  Wilson_Stratified.py / Wilson_V50.py are regenerated each run. *)
 From Coq Require Import Reals List Bool ZArith.
-From DHV Require Import NumOps RInst LC20.
+From DHV Require Import NumOps RInst LC20 LIl LWS.
 From DHV Require Constants Homogeneous WilsonStratified WilsonV50.
 Local Open Scope R_scope.
 
@@ -60,3 +60,11 @@ Theorem C20_V50_nonincreasing : forall (fuel : nat) (v1 v2 Dp d50 d85 eps nu rho
   WilsonV50.Erhg RN fuel v2 Dp d50 d85 eps nu rhol rhos musf <= WilsonV50.Erhg RN fuel v1 Dp d50 d85 eps nu rhol rhos musf.
 Proof. exact LC20.v50_Erhg_nonincreasing. Qed.
 Print Assumptions C20_V50_nonincreasing.
+
+(* the Wilson stratified excess gradient does not rise with line speed either, on the liquid side of the envelope
+   (the deposit velocity follows the friction factor, which falls with speed, but only like V^0.26) *)
+Theorem C20_ws_nonincreasing : forall (V1 V2 Dp d eps nu rhol rhos musf Cvt Cvb : R),
+  liqE V1 Dp eps nu -> liqE V2 Dp eps nu -> V1 <= V2 -> 0 < musf -> 0 < Cvt < 6 / 10 ->
+  WilsonStratified.Erhg RN V2 Dp d eps nu rhol rhos musf Cvt Cvb <= WilsonStratified.Erhg RN V1 Dp d eps nu rhol rhos musf Cvt Cvb.
+Proof. exact LWS.ws_Erhg_nonincreasing. Qed.
+Print Assumptions C20_ws_nonincreasing.
